@@ -25,8 +25,15 @@
 
 BEGIN_NAMESPACE_ASAM_CMP
 
+#ifdef ASAM_CMP_VERIF
+struct VerifAccess;
+#endif
+
 class Decoder final
 {
+#ifdef ASAM_CMP_VERIF
+    friend struct VerifAccess;
+#endif
 public:
     std::vector<std::shared_ptr<Packet>> decode(const void* data, const std::size_t size);
 
